@@ -388,6 +388,7 @@ func chop(s string, sizes []int) []string {
 // GenC05: BDAT framing.
 func GenC05(rng *rand.Rand, thorough bool, emit func(*Sx)) {
 	genF6Witness(rng, emit)
+	genBigRefusedChunk(rng, "C05", emit)
 	chunkings := [][]int{{1 << 20}, {0, 1 << 20}, {3, 0, 4}, {1, 1, 1}, {5}, {0}}
 	states := []string{"ok", "nomail", "allrej", "badlast", "over", "lmtp", "lmtpsess"}
 	lastModes := []string{"last", "emptylast", "nolast"}
@@ -587,6 +588,56 @@ func GenC05(rng *rand.Rand, thorough bool, emit func(*Sx)) {
 					}
 					raws = append(raws, Raw{Kind: RawData, Data: append([]byte(nil), f.out[k:]...)}, rawEOF)
 					emit(RunConv(f.caseOf("C05", raws)))
+				}
+			}
+		}
+	}
+}
+
+// genBigRefusedChunk: a chunk far larger than any internal buffer (70 000 and 200 000 octets, full of lines that
+// look like commands) whose backend gives up early - with a refusal or with nil - after 0, 3 or 40 000 octets.
+// Whatever the verdict, the whole chunk is consumed as payload: none of its lines is executed or answered, the next
+// command is the one after the chunk.
+func genBigRefusedChunk(rng *rand.Rand, focus string, emit func(*Sx)) {
+	unit := "0123456789abcdef0123456789abcdef\r\nMAIL FROM:<chunk@evil>\r\nRCPT TO:<chunk@evil>\r\nNOOP\r\n"
+	n := 0
+	for _, size := range []int{70000, 200000} {
+		for _, stop := range []int64{0, 3, 40000} {
+			for _, last := range []bool{false, true} {
+				for _, lmtp := range []bool{false, true} {
+					n++
+					cfg := DefaultCfg()
+					cfg.LMTP, cfg.LMTPSession = lmtp, lmtp && n%2 == 0
+					f := newF(cfg)
+					f.hello()
+					f.cmd("MAIL FROM:<s@ok>", 250)
+					f.cmd("RCPT TO:<r0@ok>", 250)
+					payload := strings.Repeat(unit, size/len(unit)+1)[:size]
+					p := DefaultPlan()
+					p.Stop, p.Ret = stop, rejectErr()
+					f.script.Data = []DataPlan{p}
+					arg := ""
+					if last {
+						arg = " LAST"
+					}
+					f.cmd(fmt.Sprintf("BDAT %d%s", size, arg), 550)
+					f.raw(payload)
+					f.cmd("MAIL FROM:<after@ok>", 250)
+					f.cmd("QUIT", 221)
+					f.add(L(A("must-mail"), XS("after@ok")))
+					f.add(L(A("must-not-mail"), XS("chunk@evil")))
+					// one reply per command, in order - also stated for C04 (lines of the payload must not be answered)
+					cl := L()
+					for _, c := range f.codes {
+						cl.Add(Num(int64(c)))
+					}
+					f.add(L(A("for"), A("C04"), L(A("expect-codes"), cl)))
+					// (one raw read, or one per line for the smaller size: the model is slow on many thousand reads)
+					mode := 0
+					if size < 100000 {
+						mode = n % 2
+					}
+					emit(RunConv(f.caseOf(focus, segStream(rng, f.out, nil, mode, rawEOF))))
 				}
 			}
 		}
@@ -1817,6 +1868,7 @@ func GenC03(rng *rand.Rand, thorough bool, emit func(*Sx)) {
 
 // GenC19: hostile input.
 func GenC19(rng *rand.Rand, thorough bool, emit func(*Sx)) {
+	genBigRefusedChunk(rng, "C19", emit)
 	// (a) line lengths around the limit, at several positions
 	for _, L_ := range []int{60, 120, 500} {
 		for pos := 0; pos < 3; pos++ {
